@@ -80,6 +80,7 @@ type Spec struct {
 	StreamBuffer int
 
 	PerIPPerMin   int // 0 => effectively unlimited
+	PerIPOff      bool // write per_ip_requests_per_minute: 0 (the documented way to switch the per-IP limit off)
 	GlobalPerMin  int
 	Burst         int
 	HealthPerMin  int
@@ -123,6 +124,9 @@ func (s *Spec) yaml(port int) string {
 	perIP, global, burst, hpm := s.PerIPPerMin, s.GlobalPerMin, s.Burst, s.HealthPerMin
 	if perIP == 0 {
 		perIP = big
+	}
+	if s.PerIPOff {
+		perIP = 0
 	}
 	if global == 0 {
 		global = big
